@@ -7,9 +7,13 @@ import (
 	"encoding/hex"
 	"flag"
 	"fmt"
+	"io/ioutil"
+	"net"
 	"net/http"
 	"net/http/httptest"
+	"strconv"
 	"strings"
+	"time"
 
 	"github.com/massnetorg/mass-core/massutil"
 	"github.com/massnetorg/mass-core/poc/chiapos"
@@ -280,10 +284,85 @@ func run(sc vh.Scenario, dir string, rec *vh.Rec) {
 					g.render(fr, ev)
 				case "target":
 					g.target(fr, ev)
+				case "listen":
+					g.listen(fr, ev)
 				}
 			}()
 			rec.Emit(ev)
 		}
+	}
+}
+
+// listen: start the real gRPC server (api.NewServer + Start) on a free port and read from the kernel's socket table
+// where it listens.
+func (g *gen) listen(fr map[string]interface{}, ev vh.Event) {
+	var port int
+	var srv *api.Server
+	for try := 0; try < 8; try++ {
+		l, err := net.Listen("tcp", "127.0.0.1:0")
+		if err != nil {
+			ev["started"] = false
+			ev["err"] = err.Error()
+			return
+		}
+		port = l.Addr().(*net.TCPAddr).Port
+		l.Close()
+		s, err := api.NewServer(&config.API{PortGRPC: uint16(port)}, nil, nil, nil, nil, nil, nil, nil, nil, 0, nil)
+		if err != nil {
+			ev["started"] = false
+			ev["err"] = err.Error()
+			return
+		}
+		if err = s.Start(); err == nil {
+			srv = s
+			break
+		}
+		ev["err"] = err.Error()
+	}
+	if srv == nil {
+		ev["started"] = false
+		return
+	}
+	delete(ev, "err")
+	defer srv.Stop()
+	ev["started"], ev["port"] = true, port
+	bound := []string{}
+	for _, f := range []string{"/proc/net/tcp", "/proc/net/tcp6"} {
+		b, err := ioutil.ReadFile(f)
+		if err != nil {
+			continue
+		}
+		for _, line := range strings.Split(string(b), "\n")[1:] {
+			fs := strings.Fields(line)
+			if len(fs) < 4 || fs[3] != "0A" { // 0A = LISTEN
+				continue
+			}
+			hp := strings.Split(fs[1], ":")
+			if len(hp) != 2 {
+				continue
+			}
+			if p, err := strconv.ParseInt(hp[1], 16, 32); err != nil || int(p) != port {
+				continue
+			}
+			switch hp[0] {
+			case "0100007F":
+				bound = append(bound, "lo4")
+			case "00000000":
+				bound = append(bound, "any4")
+			case "00000000000000000000000000000000":
+				bound = append(bound, "any6")
+			case "00000000000000000000000001000000":
+				bound = append(bound, "lo6")
+			default:
+				bound = append(bound, "other:"+hp[0])
+			}
+		}
+	}
+	ev["bound"] = bound
+	c, err := net.DialTimeout("tcp", fmt.Sprintf("127.0.0.1:%d", port), 2*time.Second)
+	ev["dial"] = err == nil
+	if err == nil {
+		c.Close()
 	}
 }
 
